@@ -5,6 +5,7 @@ import (
 	"os"
 	"os/exec"
 	"path/filepath"
+	"strconv"
 	"strings"
 	"time"
 )
@@ -76,4 +77,37 @@ func RunGit(dir string, args ...string) CLIResult {
 		}
 	}
 	return res
+}
+
+// DeadenLock makes the lock file of a repository look like the one a killed process leaves behind: the very bytes
+// the holder wrote, with the pid replaced by one that is not running (the harness simulates the death of a
+// process inside its own, live, process). Without a lock file it does nothing.
+func DeadenLock(repoPath string) {
+	p := filepath.Join(repoPath, ".git", "git-bug", "lock")
+	b, err := os.ReadFile(p)
+	if err != nil {
+		return
+	}
+	start, end := -1, -1
+	for i, c := range b {
+		if c >= '0' && c <= '9' {
+			if start < 0 {
+				start = i
+			}
+			end = i + 1
+		} else if start >= 0 {
+			break
+		}
+	}
+	if start < 0 {
+		return
+	}
+	dead := 4194000
+	for ; dead > 300000; dead-- {
+		if _, err := os.Stat("/proc/" + strconv.Itoa(dead)); err != nil {
+			break
+		}
+	}
+	out := append(append(append([]byte(nil), b[:start]...), []byte(strconv.Itoa(dead))...), b[end:]...)
+	_ = os.WriteFile(p, out, 0644)
 }
